@@ -335,6 +335,17 @@ bool Interp::exec_coll(Interp &I, const Stmt &s)
         I.env[s.dst] = PortVal{out.erased(), PT::Int, "ts"};
         return true;
     }
+    if (s.op == "ifroute")
+    {
+        // ifroute <cond int ts> <ts> uid=<u> branch=true|false: stdlib if_(condition, ts) routes the stream to one of two
+        // reference-shaped outputs; the selected branch is read through getitem_ (a reference that is EMPTY while not selected)
+        using IfTs = UnNamedTSB<Field<"true", REF<TS<Int>>>, Field<"false", REF<TS<Int>>>>;
+        auto cond   = wire<VToBool>(w, I.pi(a.at(0)), uid);
+        auto routed = wire<stdlib::if_, IfTs>(w, cond, I.pi(a.at(1))).template as<IfTs>();
+        auto br     = wire<stdlib::getitem_>(w, routed, Str{s.kws("branch", "true")}).template as<TS<Int>>();
+        I.env[s.dst] = PortVal{br.erased(), PT::Int, "ts"};
+        return true;
+    }
     if (s.op == "crecord" && !s.kwi("sparse", 0))
     {
         PortVal v = I.get(a.at(0));
